@@ -7,6 +7,7 @@ import (
 	"reflect"
 	"sort"
 	"strings"
+	"time"
 	"unsafe"
 
 	"github.com/ohler55/ojg"
@@ -135,6 +136,12 @@ func tightSortObject(wr *Writer, n map[string]any, _ int) {
 }
 
 func (wr *Writer) tightStruct(rv reflect.Value, si *sinfo) {
+	if rv.Type() == timeType {
+		// A time.Time that is an element of a slice, array or map is a time
+		// as it is when it is a field, not a struct without fields.
+		wr.buf = wr.AppendTime(wr.buf, rv.Interface().(time.Time), false)
+		return
+	}
 	if si == nil {
 		si = getSinfo(rv.Interface(), wr.OmitEmpty)
 	}
